@@ -10,6 +10,10 @@ for f in glob.glob('/verif/seeded/C*/meta.json'):
     at_hand = m.get('caught_by_version_at_hand')
     if at_hand is None:
         at_hand = 'missed by the version at hand' not in m.get('history', '')
+    if not m.get('detected', True):
+        key = (m['property'], int(m['id'].split('-')[1]))
+        rows.append((key, '| %s | %s | — | — | **not caught** (by design, see meta.json) |' % (m['id'], m['needs_to_manifest'][:200])))
+        continue
     checks = '; '.join(dict.fromkeys(d['check'] for d in m['detected_by']))
     tier = '' if m.get('tier', 'quick') == 'quick' else ' (%s)' % m['tier']
     key = (m['property'], int(m['id'].split('-')[1]))
